@@ -606,6 +606,12 @@ func (x *Exec) fork(st *State, cond string) (thenSt, elseSt *State) {
 	if cond == "false" {
 		return nil, st
 	}
+	switch st.decided(cond) {
+	case 1:
+		return st, nil
+	case -1:
+		return nil, st
+	}
 	e := st.clone()
 	st.assume(cond)
 	e.assume(not(cond))
